@@ -89,6 +89,7 @@ type config struct {
 	T    int  // WithTargetMessageSize (1 = one task per envelope; 44 = a small block plus a presence)
 	Zero bool // the empty block Z is in the store and in the menu
 	Tie  int  // which peer role wins the fair comparator's salted-hash tiebreak
+	Wide bool // larger message menu (thorough tier)
 }
 
 func (c config) String() string {
@@ -96,13 +97,18 @@ func (c config) String() string {
 	if c.Zero {
 		z = 1
 	}
-	return fmt.Sprintf("L%d-r%d-t%d-z%d-tie%d", c.L, c.R, c.T, z, c.Tie)
+	w := 0
+	if c.Wide {
+		w = 1
+	}
+	return fmt.Sprintf("L%d-r%d-t%d-z%d-tie%d-w%d", c.L, c.R, c.T, z, c.Tie, w)
 }
 
 func parseConfig(s string) (c config, err error) {
-	var z int
-	_, err = fmt.Sscanf(s, "L%d-r%d-t%d-z%d-tie%d", &c.L, &c.R, &c.T, &z, &c.Tie)
+	var z, w int
+	_, err = fmt.Sscanf(s, "L%d-r%d-t%d-z%d-tie%d-w%d", &c.L, &c.R, &c.T, &z, &c.Tie, &w)
 	c.Zero = z == 1
+	c.Wide = w == 1
 	return
 }
 
